@@ -87,6 +87,9 @@ func (e *Engine) callWith(st *State, fr *Frame, cc *ssa.CallCommon, fnv Value, a
 		// unknown function value: only context.CancelFunc (no effect on library state)
 		if tn := typeName(cc.Value.Type()); tn == "context.CancelFunc" {
 			e.Stats["cancelfunc-calls"]++
+			if st.PureDepth == 0 && !fr.Pure {
+				e.recordCall(st, "context.CancelFunc", []Value{f}, nil)
+			}
 			k(st, nil)
 			return
 		}
@@ -128,6 +131,9 @@ func (e *Engine) callFn(st *State, fr *Frame, fn *ssa.Function, bind []Value, ar
 			}
 			return
 		}
+	}
+	if e.modelCall(st, fr, fn, args, pos, k) {
+		return
 	}
 	if r, ok := e.externIntrinsic(st, fr, fn, args, pos); ok {
 		k(st, r)
@@ -225,6 +231,10 @@ func (e *Engine) callFn(st *State, fr *Frame, fn *ssa.Function, bind []Value, ar
 				return
 			}
 		}
+	}
+	if fc != nil && fc.ClosureOf != nil {
+		// a closure under contract is verified on its own; at a call site its body is executed
+		fc = nil
 	}
 	if fc != nil && !fc.B.Inline {
 		if fc.B.Pure {
@@ -345,6 +355,11 @@ func (e *Engine) intrinsic(st *State, fr *Frame, name string, fn *ssa.Function, 
 		return &intrRes{e.closedNow(st, e.chanTermOf(st, args[0]))}, true
 	case "gvcHeld":
 		return &intrRes{c.Select(e.chMine(e.rd(st)), e.chanTermOf(st, args[0]))}, true
+	case "gvcCloser":
+		// gvcCloser(ch): the goroutine executing the function under verification is the one
+		// that closes ch (a ghost attribute of (goroutine, channel) that no operation changes;
+		// used to state that a goroutine does not wait for a channel only it closes)
+		return &intrRes{c.Select(e.heapArr(e.rd(st), "chan.closer", smt.Bool), e.chanTermOf(st, args[0]))}, true
 	case "gvcIsArmed":
 		return &intrRes{c.Select(e.heapArr(e.rd(st), "chan.armed", smt.Bool), e.chanTermOf(st, args[0]))}, true
 	case "gvcArmed":
@@ -421,6 +436,70 @@ func (e *Engine) intrinsic(st *State, fr *Frame, name string, fn *ssa.Function, 
 		a, b := args[0].(*SliceV), args[1].(*SliceV)
 		d := c.Sub(b.Len, a.Len)
 		return &intrRes{c.And(c.Eq(a.Region, b.Region), c.Sle(e.i64(0), a.Len), c.Sle(a.Len, b.Len), c.Eq(a.Off, c.Add(b.Off, d)), c.Eq(a.Cap, c.Sub(b.Cap, d)))}, true
+	case "gvcSameRef":
+		// identity of two references (function values, channels, pointers) that Go cannot compare
+		return &intrRes{c.Eq(e.chanTermOf(st, args[0]), e.chanTermOf(st, args[1]))}, true
+	case "gvcCallSeq":
+		// position of the last call of f on this path; 0 if there was none (or it lies before a loop cut)
+		key, ok := e.litOf(args[0].(*smt.Term))
+		if !ok || (!pseudoCallee(key) && e.Contracts[key] == nil) {
+			e.fail("gvcCallSeq: %q is not a function under contract", key)
+		}
+		if st.TraceOpaque > 0 {
+			return &intrRes{c.Fresh("callseq$callee$"+key, smt.BV64)}, true
+		}
+		if st.Calls != nil && st.Calls[key] != nil {
+			return &intrRes{e.i64(int64(st.Calls[key].Seq))}, true
+		}
+		return &intrRes{e.i64(0)}, true
+	case "gvcCalls", "gvcCallArg", "gvcCallRes":
+		key, ok := e.litOf(args[0].(*smt.Term))
+		if !ok {
+			e.fail("%s: the callee name must be a string literal", name)
+		}
+		if !pseudoCallee(key) && e.Contracts[key] == nil {
+			e.fail("%s: no function under contract is called %q", name, key)
+		}
+		var rec *callRec
+		if st.Calls != nil {
+			rec = st.Calls[key]
+		}
+		if st.TraceOpaque > 0 {
+			// inside a callee's contract: its call trace is not visible to the caller
+			if name == "gvcCalls" {
+				return &intrRes{c.Fresh("calls$callee$"+key, smt.BV64)}, true
+			}
+			return &intrRes{e.freshOfType(st, fn.Signature.Results().At(0).Type(), "calleetrace$"+key)}, true
+		}
+		if name == "gvcCalls" {
+			if rec != nil {
+				return &intrRes{rec.N}, true
+			}
+			if st.Calls != nil && st.Calls["$havoc"] != nil {
+				// not called since the loop cut, unknown before it (one unknown per path, so
+				// that a loop invariant can constrain it)
+				return &intrRes{c.Var(fmt.Sprintf("calls$%s$cut%d", key, st.Calls["$havoc"].Seq), smt.BV64)}, true
+			}
+			return &intrRes{e.i64(0)}, true
+		}
+		rt := fn.Signature.Results().At(0).Type()
+		it := args[1].(*smt.Term)
+		idx, isC := it.Val, it.IsConst()
+		if !isC {
+			e.fail("%s: the index must be a constant", name)
+		}
+		var vs []Value
+		if rec != nil {
+			vs = rec.Args
+			if name == "gvcCallRes" {
+				vs = rec.Res
+			}
+		}
+		if rec == nil || int(idx) >= len(vs) || vs[idx] == nil {
+			// no such call on this path: an arbitrary value
+			return &intrRes{e.freshOfType(st, rt, "nocall$"+key)}, true
+		}
+		return &intrRes{e.coerceArg(st, vs[idx], rt)}, true
 	case "gvcSameSlice":
 		a, b := args[0].(*SliceV), args[1].(*SliceV)
 		return &intrRes{c.And(c.Eq(a.Region, b.Region), c.Eq(a.Off, b.Off), c.Eq(a.Len, b.Len), c.Eq(a.Cap, b.Cap))}, true
@@ -679,6 +758,15 @@ func (e *Engine) coerceArg(st *State, v Value, t types.Type) Value {
 type modSet struct {
 	heap map[string][]*smt.Term // key -> objects (nil entry = all objects)
 	mem  map[string][]*smt.Term // key -> regions
+	// the arrays materialised while collecting (a footprint function with branches runs on
+	// cloned states, so they are remembered here)
+	harr map[string]*smt.Term
+	marr map[string]*smt.Term
+	// condition (branch decisions inside a footprint function) under which each item applies;
+	// used when a callee's modifies set is applied, ignored (= true) for frame checks
+	hcond  map[string][]*smt.Term
+	mcond  map[string][]*smt.Term
+	pcBase int
 }
 
 func (e *Engine) leafKeys(prefix string, t types.Type) []Leaf {
@@ -696,8 +784,18 @@ func (e *Engine) applyMod(st *State, kind string, arg Value) {
 	rec := st.ModCollect
 	havocHeap := func(key string, s *smt.Sort, obj *smt.Term) {
 		if rec != nil {
-			e.heapArr(st, key, s)
+			a := e.heapArr(st, key, s)
+			if rec.harr == nil {
+				rec.harr = map[string]*smt.Term{}
+			}
+			if rec.harr[key] == nil {
+				rec.harr[key] = a
+			}
 			rec.heap[key] = append(rec.heap[key], obj)
+			if rec.hcond == nil {
+				rec.hcond = map[string][]*smt.Term{}
+			}
+			rec.hcond[key] = append(rec.hcond[key], e.branchCondSince(st, rec.pcBase))
 			return
 		}
 		a := e.heapArr(st, key, s)
@@ -705,8 +803,18 @@ func (e *Engine) applyMod(st *State, kind string, arg Value) {
 	}
 	havocRegion := func(key string, s *smt.Sort, reg *smt.Term) {
 		if rec != nil {
-			e.memArr(st, key, s)
+			m := e.memArr(st, key, s)
+			if rec.marr == nil {
+				rec.marr = map[string]*smt.Term{}
+			}
+			if rec.marr[key] == nil {
+				rec.marr[key] = m
+			}
 			rec.mem[key] = append(rec.mem[key], reg)
+			if rec.mcond == nil {
+				rec.mcond = map[string][]*smt.Term{}
+			}
+			rec.mcond[key] = append(rec.mcond[key], e.branchCondSince(st, rec.pcBase))
 			return
 		}
 		m := e.memArr(st, key, s)
@@ -811,6 +919,7 @@ func (e *Engine) runModFn(st *State, fr *Frame, cf *ClauseFn, env clauseEnv, col
 	}
 	frozen.ModCollect = rec
 	base := len(frozen.PC)
+	rec.pcBase = base
 	e.exec(nf, cf.Fn.Blocks[0], 0, frozen, func(s2 *State, _ []Value) {
 		// axiom instances created while evaluating the locations (ghost accessors,
 		// region injectivity) are facts of the caller's state as well
@@ -826,27 +935,41 @@ func (e *Engine) runModFn(st *State, fr *Frame, cf *ClauseFn, env clauseEnv, col
 	// apply the collected havocs to st
 	c := e.C
 	for _, key := range sortedKeysT(rec.heap) {
-		for _, obj := range rec.heap[key] {
+		for i, obj := range rec.heap[key] {
 			a := st.Heap[key]
 			if a == nil {
 				a = frozen.Heap[key]
 				if a == nil {
+					a = rec.harr[key]
+				}
+				if a == nil {
 					e.fail("modifies: unknown heap key %s", key)
 				}
 			}
-			st.Heap[key] = c.Store(a, obj, c.Fresh("havoc$"+key, a.Sort.Elem))
+			nv := c.Fresh("havoc$"+key, a.Sort.Elem)
+			if cs := rec.hcond[key]; i < len(cs) && cs[i] != nil && !cs[i].IsTrue() {
+				nv = c.Ite(cs[i], nv, c.Select(a, obj))
+			}
+			st.Heap[key] = c.Store(a, obj, nv)
 		}
 	}
 	for _, key := range sortedKeysT(rec.mem) {
-		for _, reg := range rec.mem[key] {
+		for i, reg := range rec.mem[key] {
 			m := st.Mem[key]
 			if m == nil {
 				m = frozen.Mem[key]
 				if m == nil {
+					m = rec.marr[key]
+				}
+				if m == nil {
 					e.fail("modifies: unknown mem key %s", key)
 				}
 			}
-			st.Mem[key] = c.Store(m, reg, c.Fresh("havoc$mem$"+key, m.Sort.Elem))
+			nv := c.Fresh("havoc$mem$"+key, m.Sort.Elem)
+			if cs := rec.mcond[key]; i < len(cs) && cs[i] != nil && !cs[i].IsTrue() {
+				nv = c.Ite(cs[i], nv, c.Select(m, reg))
+			}
+			st.Mem[key] = c.Store(m, reg, nv)
 		}
 	}
 }
@@ -951,6 +1074,9 @@ func (e *Engine) applyContract(st *State, fr *Frame, fc *FnContract, args []Valu
 	// ensures are evaluated in the post-state with old() referring to the call's pre-state
 	savedPre := st.Pre
 	st.Pre = pre
+	// call-trace expressions in a callee's postcondition talk about the callee's own path
+	st.TraceOpaque++
+	defer func() { st.TraceOpaque-- }()
 	for _, en := range fc.Ensures {
 		t := e.evalClause(st, fr, en, env).(*smt.Term)
 		if t.IsFalse() && os.Getenv("GVC_DEBUG_FALSE") != "" {
@@ -988,7 +1114,36 @@ func (e *Engine) applyContract(st *State, fr *Frame, fc *FnContract, args []Valu
 		}
 	}
 	e.Stats["contract-applications"]++
+	if checks {
+		e.recordCall(st, fc.Key, nargs, results)
+	}
 	return results
+}
+
+// recordCall appends to the call-trace ghost of the current path.
+func (e *Engine) recordCall(st *State, key string, args, res []Value) {
+	if st.Calls == nil {
+		st.Calls = map[string]*callRec{}
+	}
+	n := e.i64(0)
+	if old := st.Calls[key]; old != nil {
+		n = old.N
+	}
+	st.CallSeq++
+	st.Calls[key] = &callRec{Seq: st.CallSeq, N: e.C.Add(n, e.i64(1)), Args: append([]Value(nil), args...), Res: append([]Value(nil), res...)}
+}
+
+// havocCalls: after a loop cut the number of calls made so far is unknown and the "last
+// call" of every callee is forgotten.
+func (e *Engine) havocCalls(st *State) {
+	if st.Calls == nil {
+		st.Calls = map[string]*callRec{}
+	}
+	e.cutCount++
+	for k := range st.Calls {
+		st.Calls[k] = &callRec{N: e.C.Var(fmt.Sprintf("calls$%s$cut%d", k, e.cutCount), smt.BV64)}
+	}
+	st.Calls["$havoc"] = &callRec{N: e.i64(0), Seq: e.cutCount}
 }
 
 func varsOf(ts []types.Type) []*types.Var {
@@ -1001,4 +1156,131 @@ func varsOf(ts []types.Type) []*types.Var {
 
 func (e *Engine) obligeCall(st *State, fr *Frame, fc *FnContract, rq *ClauseFn, g *smt.Term, pos string) {
 	e.obligeNamed(st, fr, "requires-at-call", fc.Key+":"+rq.C.Label, g, pos, rq.C.Tags, e.fnKey(fr.Fn))
+}
+
+
+// modelCall: executor-side models of library calls that invoke a callback of the caller
+// (assumed behaviour, listed in the evidence):
+//
+//	json.NewEncoder(w)            remembers w
+//	(*json.Encoder).Encode(v)     either fails without writing (the value cannot be marshalled)
+//	                              or calls w.Write exactly once with the encoding (a fresh
+//	                              buffer of arbitrary content and length >= 1) and returns that
+//	                              call's error
+func (e *Engine) modelCall(st *State, fr *Frame, fn *ssa.Function, args []Value, pos token.Pos, k func(*State, Value)) bool {
+	if fnPkgPath(fn) != "encoding/json" {
+		return false
+	}
+	switch e.fnKey(fn) {
+	case "json.NewEncoder":
+		t := e.freshRef(st, "jsonenc")
+		if st.EncW == nil {
+			st.EncW = map[*smt.Term]Value{}
+		} else {
+			m := make(map[*smt.Term]Value, len(st.EncW)+1)
+			for a, b := range st.EncW {
+				m[a] = b
+			}
+			st.EncW = m
+		}
+		st.EncW[t] = args[0]
+		e.UsedAssumed["encoding/json.NewEncoder / (*Encoder).Encode (model: Encode fails without writing or calls the writer's Write exactly once with the encoding)"] = true
+		k(st, t)
+		return true
+	case "(*json.Encoder).Encode":
+		rt, ok := args[0].(*smt.Term)
+		var w Value
+		if ok && st.EncW != nil {
+			w = st.EncW[rt]
+		}
+		iv, isI := w.(*IfaceV)
+		if wt, isT := w.(*smt.Term); isT && !isI {
+			// a writer whose dynamic type is not known here (e.g. the result of a call): the
+			// single Write goes through the io.Writer contract
+			fcw := e.Contracts["(io.Writer).Write"]
+			if fcw == nil {
+				e.fail("(*json.Encoder).Encode at %s: no contract for (io.Writer).Write", e.pos(pos))
+			}
+			st1 := st.Clone()
+			st1.Trace = append(st1.Trace, e.pos(pos)+":marshal-fails")
+			k(st1, e.newError(st1, nil, nil, "json-marshal@"+e.pos(pos)))
+			st.Trace = append(st.Trace, e.pos(pos)+":one-write")
+			ln := e.C.Fresh("jsonlen", smt.BV64)
+			st.Assume(e.C.Slt(e.i64(0), ln))
+			st.Assume(e.C.Slt(ln, e.i64(1<<55)))
+			data := e.allocSlice(st, types.Typ[types.Uint8], ln, ln, "json-encoding")
+			res := e.applyContract(st, fr, fcw, []Value{wt, data}, pos)
+			k(st, res[1])
+			return true
+		}
+		if !isI {
+			e.fail("(*json.Encoder).Encode at %s: the encoder's writer is not known on this path", e.pos(pos))
+		}
+		// branch 1: marshalling fails, nothing is written
+		st1 := st.Clone()
+		st1.Trace = append(st1.Trace, e.pos(pos)+":marshal-fails")
+		k(st1, e.newError(st1, nil, nil, "json-marshal@"+e.pos(pos)))
+		// branch 2: exactly one Write of the encoding
+		st.Trace = append(st.Trace, e.pos(pos)+":one-write")
+		ln := e.C.Fresh("jsonlen", smt.BV64)
+		st.Assume(e.C.Slt(e.i64(0), ln))
+		st.Assume(e.C.Slt(ln, e.i64(1<<55)))
+		data := e.allocSlice(st, types.Typ[types.Uint8], ln, ln, "json-encoding")
+		inner := iv
+		for {
+			if n, ok := inner.V.(*IfaceV); ok {
+				inner = n
+				continue
+			}
+			break
+		}
+		ms := e.Prog.MethodSets.MethodSet(inner.T)
+		var sel *types.Selection
+		for i := 0; i < ms.Len(); i++ {
+			if ms.At(i).Obj().Name() == "Write" {
+				sel = ms.At(i)
+			}
+		}
+		if sel == nil {
+			e.fail("(*json.Encoder).Encode at %s: writer of type %s has no Write method", e.pos(pos), inner.T)
+		}
+		m := e.Prog.MethodValue(sel)
+		e.callFn(st, fr, m, nil, []Value{inner.V, data}, pos, func(st2 *State, r Value) {
+			tv, ok := r.(*TupleV)
+			if !ok || len(tv.V) != 2 {
+				e.fail("Write model: unexpected result")
+			}
+			k(st2, tv.V[1])
+		})
+		return true
+	}
+	return false
+}
+
+
+// pseudoCallee: events that are recorded in the call trace although they are not calls of a
+// function under contract: calls of a context.CancelFunc value (argument 0: the function),
+// channel receives / sends (argument 0: the channel), map updates (map, key, value),
+// deletes (map, key) and lookups (map, key; results: value, present).
+func pseudoCallee(key string) bool {
+	switch key {
+	case "context.CancelFunc", "chan.recv", "chan.send", "map.update", "map.delete", "map.lookup":
+		return true
+	}
+	return false
+}
+
+
+// branchCondSince: conjunction of the branch decisions recorded on st since index base.
+func (e *Engine) branchCondSince(st *State, base int) *smt.Term {
+	var cs []*smt.Term
+	for i := base; i < len(st.PC); i++ {
+		if st.IsBranch[i] {
+			cs = append(cs, st.PC[i])
+		}
+	}
+	if len(cs) == 0 {
+		return nil
+	}
+	return e.C.And(cs...)
 }
